@@ -112,6 +112,18 @@ class _Norm(ast.NodeTransformer):
         n.is_async = 0
         return n
 
+    def visit_IfExp(self, n):
+        # m[k] if k in m else d  ==  m.get(k, d)      (and the negated form)
+        self.generic_visit(n)
+        t, a, b = n.test, n.body, n.orelse
+        if isinstance(t, ast.Compare) and len(t.ops) == 1 and isinstance(t.ops[0], (ast.In, ast.NotIn)):
+            if isinstance(t.ops[0], ast.NotIn):
+                a, b = b, a
+            k, m = t.left, t.comparators[0]
+            if isinstance(a, ast.Subscript) and ast.dump(a.value) == ast.dump(m) and ast.dump(a.slice) == ast.dump(k):
+                return ast.Call(func=ast.Attribute(value=m, attr="get", ctx=ast.Load()), args=[k, b], keywords=[])
+        return n
+
     def visit_Constant(self, n):
         nk = norm_key(n.value)
         if nk is not n.value and nk != n.value:
@@ -169,10 +181,56 @@ def normalised(fn: FuncInfo) -> ast.AST:
                 except Exception:
                     pass
     t = _Norm().visit(t)
+    t = _propagate_aliases(t)
     ast.fix_missing_locations(t)
     params = [a.arg for a in t.args.posonlyargs + t.args.args + t.args.kwonlyargs]
     t = _alpha(t, params)
     return t
+
+
+def _propagate_aliases(t: ast.AST) -> ast.AST:
+    """A local bound exactly once to a plain attribute path of self / a parameter (`headers = self.headers`,
+    `cache = self.__dict__`) is that path: replace its uses and drop the binding, so that hoisting such a path into a local - or
+    not - gives the same normalised function."""
+    counts: Dict[str, int] = {}
+    vals: Dict[str, ast.expr] = {}
+    for n in ast.walk(t):
+        if isinstance(n, ast.Name) and isinstance(n.ctx, (ast.Store, ast.Del)):
+            counts[n.id] = counts.get(n.id, 0) + 1
+        elif isinstance(n, ast.arg):
+            counts[n.arg] = counts.get(n.arg, 0) + 2
+    for n in ast.walk(t):
+        if isinstance(n, ast.Assign) and len(n.targets) == 1 and isinstance(n.targets[0], ast.Name) and counts.get(n.targets[0].id) == 1:
+            v = n.value
+            chain = v
+            depth = 0
+            while isinstance(chain, ast.Attribute):
+                chain = chain.value
+                depth += 1
+            if depth >= 1 and isinstance(chain, ast.Name) and chain.id in ("self", "cls"):
+                vals[n.targets[0].id] = v
+    if not vals:
+        return t
+
+    class R(ast.NodeTransformer):
+        def visit_Assign(self, n):
+            if len(n.targets) == 1 and isinstance(n.targets[0], ast.Name) and n.targets[0].id in vals and n.value is vals[n.targets[0].id]:
+                return None
+            self.generic_visit(n)
+            return n
+
+        def visit_Name(self, n):
+            if isinstance(n.ctx, ast.Load) and n.id in vals:
+                return copy.deepcopy(vals[n.id])
+            return n
+
+    t2 = R().visit(t)
+    for n in ast.walk(t2):
+        for fld in ("body", "orelse", "finalbody"):
+            b = getattr(n, fld, None)
+            if isinstance(b, list) and not b and fld == "body" and isinstance(n, (ast.If, ast.For, ast.While, ast.With, ast.FunctionDef, ast.Try, ast.ExceptHandler)):
+                n.body = [ast.Pass()]
+    return t2
 
 
 def tier_a_equal(f: FuncInfo, g: FuncInfo) -> bool:
@@ -188,8 +246,13 @@ _HDR_READ = _re2.compile(r"REQ(?:\.get\('hdr:[^']+'(?:, [^()]*)?\)|\['hdr:[^']+'
 _KEY_GET = _re2.compile(r"REQ\.get\('(path|root_path|query_string|method|path_params)'(?:, [^()]*)?\)")
 
 
+_PRIVATE_CALL = _re2.compile(r"(?<![\w.])(?:self\.|cls\.)?_(?!_)[A-Za-z]\w*\((?:[^()]|\([^()]*\))*\)")
+
+
 def _txt(n: ast.AST) -> str:
     t = " ".join(ast.unparse(n).split())
+    if "_" in t:
+        t = _PRIVATE_CALL.sub("_L", t)  # the value of a private helper is a local of its caller
     t = _HDR_READ.sub("_L", t)  # a request-header read is a local on the ASGI side (header scan loop)
     t = _KEY_GET.sub(lambda m: f"REQ['{m.group(1)}']", t)
     t = t.replace("environ=REQ", "req=REQ").replace("scope=REQ", "req=REQ").replace("environ=self._REQ", "req=self._REQ").replace("scope=self._REQ", "req=self._REQ")
@@ -225,6 +288,9 @@ def _guard_chain(node: ast.AST, root: ast.AST, parents: Dict[int, ast.AST]) -> T
     return tuple(reversed(out))
 
 
+PROGRAM = None  # set by the check so that helpers inherited from a base class are found
+
+
 def is_private_helper(fi: FuncInfo) -> bool:
     n = fi.name
     return n.startswith("_") and not n.startswith("__") and all(d in ("staticmethod", "classmethod") for d in fi.decorators)
@@ -245,6 +311,8 @@ def _helper_of(fn: FuncInfo, call: ast.Call) -> Optional[FuncInfo]:
             g = g.parent
             owner = g.cls
         cand = owner.methods.get(name) if owner is not None else None
+        if cand is None and owner is not None and PROGRAM is not None:
+            cand = PROGRAM.find_method(owner, name)
     else:
         return None
     if cand is not None and is_private_helper(cand) and cand is not fn:
